@@ -2,6 +2,8 @@
 (* Model-checking wrapper of DbLog: constant sets for the cfg files. *)
 EXTENDS DbLog
 AllSix    == {"Pos", "Neg", "Timeout", "Mismatch", "Malformed", "ConnErr"}
+AllSeven  == AllSix \cup {"Cut"}
+CutOnly   == {"Pos", "Cut"}
 ThreeOut  == {"Pos", "Timeout", "Mismatch"}
 TwoKinds  == {"Plain", "Sess"}
 AllKinds  == {"Plain", "Sess", "Sec"}
